@@ -81,7 +81,7 @@ let act_s = function
 let mk k st b i tb rq sq rb sb sl ak =
   { kd = kind_of k; st = st_of st; bound = b_of b; intab = b_of i; tabled = b_of tb; rq = items rq;
     sq = nat_of_int (int_of_string sq); rbuf = nat_of_int (int_of_string rb); sbuf = nat_of_int (int_of_string sb);
-    slots = nat_of_int (int_of_string sl); acks = nat_of_int (int_of_string ak) }
+    slots = nat_of_int (int_of_string sl); acks = nat_of_int (int_of_string ak); srv = false }
 let sock_s s =
   Printf.sprintf "%s %s %s %s %d %d %d %d %d" (st_s s.st) (b_s s.bound) (b_s s.intab) (items_s s.rq)
     (int_of_nat s.sq) (int_of_nat s.rbuf) (int_of_nat s.sbuf) (int_of_nat s.slots) (int_of_nat s.acks)
